@@ -7,7 +7,8 @@ from ..common import body_by_name, callee_names, const_value_of, family, last_na
 from ..facts import callee, const_str, op_const, op_local, op_place
 from ..flow import Flow, identity_through
 from .C02 import conn_bodies
-from .C10 import GREETING, eof_error_blocks
+from .C02 import SLICE_READS
+from .C10 import GREETING, READS, READS_EXT, eof_error_blocks
 from .C12 import closure_of_local
 
 CONFIGS_QUICK = ["K1"]
@@ -169,8 +170,47 @@ def greeting_rules(rep, prog, cfg):
                 calls = [x for x in leaves if x[0] == "call"]
                 ok = any(x[1] in gcalls for x in calls) and not any(x[0] == "const" for x in leaves) and \
                     all(x[1] in gcalls or identity_through(b.blocks[x[1]]["t"]) is not None for x in calls)
+                if not ok and l is not None:
+                    # field-sensitive second look: the version may travel in a tuple next to other values (e.g. a length)
+                    from .. import terms
+                    from ..flow import IDENTITY_LIKE
+                    T = terms.simplify(terms.cut_at(terms.term_of_local(b, l, depth=16), {GREETING}))
+                    cs = terms.calls_in(T)
+                    ok = GREETING in cs and not terms.has_kind(T, "const") and not terms.has_kind(T, "unknown") and not terms.has_kind(T, "free") and \
+                        all(c == GREETING or c in IDENTITY_LIKE or (c or "").rsplit("::", 1)[-1].split("::<")[0] in terms.VIEW_CALLS for c in cs)
         rep.check(ok, "C18.greeting-loop", "%s/%s version verbatim" % (cfg, name), b.loc(b.span),
                   "the stored protocol version does not derive verbatim from the greeting parser's output")
+        # the session starts with nothing buffered: whatever followed the greeting in the same segment must not be taken for the
+        # reply to the first command (the password verdict).  Append-based buffer: cleared on every path from the parsed greeting
+        # to the connection value; counted buffer: the count starts at the constant 0.
+        for bb, i, s in b.stmts():
+            if s["k"] == "assign" and s["rv"]["k"] == "agg" and s["rv"]["agg"] == "adt" and norm(s["rv"]["adt_name"]) == "mpd_protocol::connection::Connection":
+                ops = dict(zip(s["rv"]["fields"], s["rv"]["ops"]))
+                bufl = op_local(ops.get("recv_buf")) if ops.get("recv_buf") is not None else None
+                for _ in range(4):   # the operand is a temporary moved from the user's buffer local
+                    defs = [s4 for _, _, s4 in b.stmts() if s4["k"] == "assign" and s4["place"]["l"] == bufl and not s4["place"]["p"]]
+                    if len(defs) == 1 and defs[0]["rv"]["k"] == "use" and op_local(defs[0]["rv"]["op"]) is not None and not (op_place(defs[0]["rv"]["op"]) or {}).get("p"):
+                        bufl = op_local(defs[0]["rv"]["op"])
+                    else:
+                        break
+                cnt = op_const(ops["total_received"]) if ops.get("total_received") is not None else None
+                reads_slice = any(x in SLICE_READS for bb2, t2 in b.calls() for x in callee_names(t2)) or any(
+                    any(x in SLICE_READS for fb in family(prog, hb) for bb3, t3 in fb.calls() for x in callee_names(t3))
+                    for bb2, t2 in b.calls() for n in callee_names(t2) if n in READS and n not in READS_EXT for hb in body_by_name(prog, n))
+                if reads_slice:
+                    fresh = cnt is not None and cnt.get("int") == 0
+                else:
+                    clears = set()
+                    for bb2, t2 in b.calls():
+                        if "bytes::bytes_mut::BytesMut::clear" in callee_names(t2) and t2["args"]:
+                            a0 = op_local(t2["args"][0])
+                            for bb3, i3, s3 in b.stmts():
+                                if s3["k"] == "assign" and s3["place"]["l"] == a0 and s3["rv"]["k"] == "ref" and s3["rv"]["place"]["l"] == bufl and not s3["rv"]["place"]["p"]:
+                                    clears.add(bb2)
+                    fresh = bool(clears) and bool(gcalls) and bb not in reach(g.succs, [gcalls[0]], avoid=clears)
+                rep.check(fresh, "C18.fresh-buffer", "%s/%s session starts with an empty buffer" % (cfg, name), b.loc(s["span"]),
+                          "bytes received together with the greeting stay in the connection's buffer: the first receive() of the session (the reply to "
+                          "`password`) would be answered from data that arrived before the command was written")
         # Ok leaves the loop, Incomplete goes back to the read
         if len(gcalls) == 1:
             loops = [l for l in g.loops if gcalls[0] in l]
@@ -221,14 +261,15 @@ def run(rep, progs, tier):
     rep.rule("C18.verdict", "any ACK => IncorrectPassword; close => UnexpectedEof")
     rep.rule("C18.greeting-loop", "version verbatim from the parser; Ok leaves the loop")
     rep.rule("C18.greeting-input", "the greeting parser is offered only received bytes (no buffer padding) in both flavours")
+    rep.rule("C18.fresh-buffer", "connect hands over an empty receive state (buffer cleared / count 0) after the greeting")
     rep.rule("C18.greeting-grammar", "'OK MPD ' + non-empty non-LF version + LF")
     rep.rule("C18.version", "Client::protocol_version derives from the connection's version")
     rep.trusted = ["rustc MIR construction", "mpdfacts exporter", "tokio::spawn semantics", "MPD greeting format"]
     for cfg, prog in progs.items():
         if cfg != "K3":
             order_rule(rep, prog, cfg)
-        greeting_rules(rep, prog, cfg)
         from .C02 import valid_prefix_rule
         from .C10 import READS
         READS.bind(prog)
+        greeting_rules(rep, prog, cfg)
         valid_prefix_rule(rep, prog, cfg, rule="C18.greeting-input", which=("blocking/connect", "async/connect"))
